@@ -862,7 +862,30 @@ impl MergeInsertJob {
                 reservation_size: usize,
                 current_version: u64,
             ) -> Result<usize> {
-                // batches still have _rowaddr
+                // batches still have _rowaddr, and are sorted by it: two equal
+                // addresses mean that two source rows matched the same target row.
+                let mut previous_row_addr: Option<u64> = None;
+                for batch in &batches {
+                    let row_addrs = batch
+                        .column_by_name(ROW_ADDR)
+                        .and_then(|col| col.as_any().downcast_ref::<UInt64Array>())
+                        .ok_or_else(|| Error::Internal {
+                            message: "merge insert source is missing the row address column"
+                                .into(),
+                            location: location!(),
+                        })?;
+                    for row_addr in row_addrs.values().iter() {
+                        if previous_row_addr == Some(*row_addr) {
+                            return Err(Error::invalid_input(
+                                "Ambiguous merge insert: multiple source rows match the same target row. \
+                                 This could lead to data corruption. Please ensure each target row is matched by at most one source row.",
+                                location!(),
+                            ));
+                        }
+                        previous_row_addr = Some(*row_addr);
+                    }
+                }
+
                 let write_schema = batches[0]
                     .schema()
                     .as_ref()
